@@ -1,6 +1,7 @@
 import Lean.Data.Json
 import Driver.Proto
 import DeeprobModel.Model.LeafQ
+import DeeprobModel.Model.GaussQ
 /-
 Driver ops for the exact leaf families (`Model/LeafQ.lean`). No Mathlib.
 -/
@@ -39,7 +40,9 @@ natural numbers; `mode`, `z`, `heights`, `vary` take no argument)
 * `family:"uniform"`, params `start`, `width`; `fn`: `pdf`, `cdf`, `ppf`, `moment`, `mode`
 * `family:"bernoulli"`, param `p`; `fn`: `pdf` (`0` at non-integers), `cdf`, `moment`, `mode`
 * `family:"categorical"`, params `cats` (integers), `ps`; `fn`: `pdf` (argument truncated towards zero like
-  `astype(np.int64)`), `cdf` (argument floored), `moment`, `mode`, `dense` (args = `[n]`: the value-indexed table) -/
+  `astype(np.int64)`), `cdf` (argument floored), `moment`, `mode`, `dense` (args = `[n]`: the value-indexed table)
+* `family:"gaussian"`, params `mean`, `stddev`; `fn`: `moment` (`GaussQ.gaussRawMoment`, = the integral by
+  `GaussTheory.gauss_moment_is_integral`), `mode` (the mean, `GaussTheory.gauss_mode`) -/
 def handleLeafQ (op : String) (j : Json) : Option (Except String String) :=
   match op with
   | "leafq" => some do
@@ -108,6 +111,13 @@ def handleLeafQ (op : String) (j : Json) : Option (Except String String) :=
               let ns ← leafNatArgs j
               pure (ratsStr (denseTbl cats ps (ns.headD 0)))
           | f => throw s!"leafq: unknown fn {f} for categorical"
+      | "gaussian" => do
+          let mu ← jRat (← field j "mean")
+          let sd ← jRat (← field j "stddev")
+          match fn with
+          | "moment" => pure (ratsStr ((← leafNatArgs j).map (fun k => Deeprob.GaussQ.gaussRawMoment k mu sd)))
+          | "mode" => pure (showRat mu)
+          | f => throw s!"leafq: unknown fn {f} for gaussian"
       | f => throw s!"leafq: unknown family {f}"
   | _ => none
 
